@@ -6,6 +6,7 @@ names=${*:-$(ls seeded | grep -v '\.md$')}
 for n in $names; do
   prop=$(python3 -c "import json;print(json.load(open('seeded/$n/meta.json'))['property'])")
   checks=$(python3 -c "import json;print(','.join(sorted({k.split('@')[0] for k in json.load(open('seeded/$n/meta.json'))['checks_run']})))")
-  echo "python3 tools/check_seeded.py $n seeded/$n --property $prop --checks ${checks:-$prop} --keep > /tmp/vf-seedlog-$n.txt 2>&1; grep -c '\"caught\": true' /tmp/vf-seedlog-$n.txt | sed 's/^/$n caught-by: /'"
-done | xargs -P 4 -I{} sh -c '{}'
+  echo "$n $prop ${checks:-$prop}"
+done | xargs -P 4 -L 1 sh -c 'python3 tools/check_seeded.py $0 seeded/$0 --property $1 --checks $2 --keep > /tmp/vf-seedlog-$0.txt 2>&1; echo "$0 done"'
 python3 tools/seeded_readme.py
+rm -f /tmp/vf-seedlog-*.txt
